@@ -2,6 +2,7 @@ import Drivers.PenShow
 import DimodModel.Generators
 import DimodModel.Generators2
 import DimodModel.RandomGen
+import DimodModel.Generators3
 open Wire Pen PenShow Gen
 
 /-! Line-protocol driver for the C17 generator models (`DimodModel/Generators.lean`).
@@ -26,6 +27,11 @@ open Wire Pen PenShow Gen
     qap <distance rows> <flow rows>
     bpsp <car labels>
     msq <size> <power>                                     constraint expressions shown without self-loop folding
+    acclique <num_variables> | acloops <num_variables>
+    fl <nodes> <edges> <cycles> <gauge>                    cycles: lab,lab,...@idx (planted) or ...@- separated by ';' ; gauge: lab=±1,... or -
+    chim <m> <n> <t> <multiplier> <nodes|none> <edges> <draws>    draws: the recorded indices of choice((-1., 1.))
+    mimo <nt> <y> <F rows>  |  mimob <nr> <nt> <draws>  |  comp <nr> <nt> <attenuation rows> <draws>
+    qpsk <nt> <Re y> <Im y> <Re F rows> <Im F rows>  |  qam <amplitude bits> <nt> <Re y> <Im y> <Re F rows> <Im F rows>
 -/
 
 def kindOf? (s : String) : Option GateKind :=
@@ -233,10 +239,84 @@ def answer (line : String) : String :=
     | _, _ => "bad-op"
   | _ => "bad-op"
 
+def parseNats (s : String) : Option (List Nat) := (csv s).mapM (·.toNat?)
+
+def parseCycles (s : String) : Option (List (List Label × Option Nat)) :=
+  if s = "-" then some [] else
+  (s.splitOn ";").mapM fun c =>
+    match c.splitOn "@" with
+    | [ls, idx] => do
+      let ls ← parseLabels ls
+      let idx ← (if idx = "-" then some none else idx.toNat?.map some)
+      pure (ls, idx)
+    | _ => none
+
+def answer3 (line : String) : Option String :=
+  match line.trimAscii.toString.splitOn " " with
+  | ["mult", n, m] => some <|
+    match n.toNat?, m.toNat? with
+    | some n, some m => match mulCircuitBag n m with | some bag => showBag .binary bag | none => "err"
+    | _, _ => "bad-op"
+  | ["acclique", n] => some <|
+    match n.toNat? with
+    | some n => match acClique n with | some b => "ok " ++ showBq b false | none => "err"
+    | none => "bad-op"
+  | ["acloops", n] => some <|
+    match n.toNat? with
+    | some n => match acLoops n with | some b => "ok " ++ showBq b false | none => "err"
+    | none => "bad-op"
+  | ["fl", nodes, edges, cycles, gauge] => some <|
+    match parseLabels nodes, parseEdges edges, parseCycles cycles, (if gauge = "-" then some none else (parseTerms gauge).map some) with
+    | some nodes, some edges, some cycles, some gauge =>
+      let bag := frustratedLoop nodes edges cycles
+      match gauge with
+      | none => showBag .spin bag
+      | some g =>
+        -- the gauge acts on the accumulated interactions of the model (one entry per edge)
+        let b := (Bq.empty .spin : Bq Label).apply bag
+        let p : Label → Rat := fun v => Bq.lookupKey g v
+        "ok " ++ showBq { b with quad := b.quad.map (fun q => (q.1, q.2 * p q.1.1 * p q.1.2)) } false
+    | _, _, _, _ => "bad-op"
+  | ["chim", m, n, t, mult, nodes, edges, draws] => some <|
+    match m.toNat?, n.toNat?, t.toNat?, parseRat? mult, parseNats draws with
+    | some m, some n, some t, some mult, some draws =>
+      let sub := if nodes = "none" then some none else
+        match parseLabels nodes, parseEdges edges with
+        | some ns, some es => some (some (ns, es))
+        | _, _ => none
+      match sub with
+      | none => "bad-op"
+      | some sub =>
+        match chimeraAnticluster m n t mult sub draws with
+        | some bag => showBag .spin bag
+        | none => "err"
+    | _, _, _, _, _ => "bad-op"
+  | ["mimo", nt, y, f] => some <|
+    match nt.toNat?, parseRats y, parseMatrix f with
+    | some nt, some y, some f => match mimoBpsk nt y f with | some bag => showBag .spin bag | none => "err"
+    | _, _, _ => "bad-op"
+  | ["comp", nr, nt, a, draws] => some <|
+    match nr.toNat?, nt.toNat?, parseMatrix a, parseNats draws with
+    | some nr, some nt, some a, some draws => match compBinary nr nt a draws with | some bag => showBag .spin bag | none => "err"
+    | _, _, _, _ => "bad-op"
+  | ["qpsk", nt, yr, yi, fr, fi] => some <|
+    match nt.toNat?, parseRats yr, parseRats yi, parseMatrix fr, parseMatrix fi with
+    | some nt, some yr, some yi, some fr, some fi => match mimoQpsk nt yr yi fr fi with | some bag => showBag .spin bag | none => "err"
+    | _, _, _, _, _ => "bad-op"
+  | ["qam", na, nt, yr, yi, fr, fi] => some <|
+    match na.toNat?, nt.toNat?, parseRats yr, parseRats yi, parseMatrix fr, parseMatrix fi with
+    | some na, some nt, some yr, some yi, some fr, some fi => match mimoQam na nt yr yi fr fi with | some bag => showBag .spin bag | none => "err"
+    | _, _, _, _, _, _ => "bad-op"
+  | ["mimob", nr, nt, draws] => some <|
+    match nr.toNat?, nt.toNat?, parseNats draws with
+    | some nr, some nt, some draws => match mimoBinary nr nt draws with | some bag => showBag .spin bag | none => "err"
+    | _, _, _ => "bad-op"
+  | _ => none
+
 partial def loop (h : IO.FS.Stream) : IO Unit := do
   let line ← h.getLine
   if line.isEmpty then return ()
-  IO.println (answer line)
+  IO.println ((answer3 line).getD (answer line))
   loop h
 
 def main : IO Unit := do loop (← IO.getStdin)
